@@ -788,7 +788,8 @@ def arange(*a, **k):
     return array(_np.arange(*a, **k).tolist())
 
 
-def linspace(a, b, num=50, endpoint=True):
+def linspace(start, stop, num=50, endpoint=True, **kw):
+    a, b = start, stop
     num = builtins.int(num)
     if num == 1:
         return array([a])
@@ -1168,6 +1169,8 @@ def log(a):
 
 def _log10_1(x):
     if _is_sym(x):
+        if symx.in_message_context():
+            return 0.0  # inside report / table formatting: the rendered text is not the subject
         raise symx.Inconclusive("transcendental", "np.log10 on a symbolic value at %s" % symx._where())
     return math.log10(x) if x > 0 else (-inf if x == 0 else nan)
 
@@ -1215,6 +1218,8 @@ def ceil(a):
 def around(a, decimals=0):
     def f(x):
         if _is_sym(x) or _is_sym(decimals):
+            if symx.in_message_context():
+                return 1.0  # placeholder (log10 of it is finite)
             raise symx.Inconclusive("rounding", "np.around on a symbolic value at %s" % symx._where())
         return builtins.float(_np.around(x, decimals))
 
